@@ -18,8 +18,39 @@ def pkgcopy(src, pkg, name):
     return dst
 
 
+MUTATORS = r'^func \(c \*container\) (Set\w+|UpdateState|InsertMount|markPending|ClearPending|GetPendingAdjustment|GetPendingUpdate)\((.*?)\)( .*)?\{$'
+
+
+def instrument_container():
+    """Regenerate the traced copy of pkg/resmgr/cache/container.go from the CURRENT source:
+    a verifTrace(...) call is inserted as the first statement of every mutator method.
+    Returns (path, number of instrumented methods)."""
+    import re
+    src = open(os.path.join(vlib.REPO, 'pkg/resmgr/cache/container.go')).read().split('\n')
+    out, n = [], 0
+    for line in src:
+        out.append(line)
+        m = re.match(MUTATORS, line)
+        if m:
+            params = [p.strip().split(' ')[0] for p in m.group(2).split(',') if p.strip()]
+            args = ''.join(', ' + p for p in params if p not in ('_',) and not p.startswith('...'))
+            out.append('\tverifTrace("%s", c%s)' % (m.group(1), args))
+            n += 1
+    os.makedirs(os.path.join(BUILD, 'gen'), exist_ok=True)
+    dst = os.path.join(BUILD, 'gen', 'container_traced.go')
+    txt = '\n'.join(out)
+    if not os.path.exists(dst) or open(dst).read() != txt:
+        open(dst, 'w').write(txt)
+    return dst, n
+
+
 def overlays():
+    traced, n = instrument_container()
+    if n < 10:
+        raise RuntimeError('instrument_container: only %d mutators recognised in container.go' % n)
     return {
+        'pkg/resmgr/cache/container.go': traced,
+        'pkg/resmgr/cache/zz_verif_trace.go': os.path.join(HS, 'fullstack', 'cache_trace.go'),
         'pkg/resmgr/zz_verif_fs_test.go': os.path.join(HS, 'fullstack', 'fs_test.go'),
         'pkg/resmgr/zz_verif_sysfsgen_test.go': pkgcopy(os.path.join(HS, 'common', 'sysfsgen.go'), 'resmgr', 'sysfsgen_resmgr_test.go'),
         'cmd/plugins/topology-aware/policy/zz_verif_snapshot.go': os.path.join(HS, 'fullstack', 'ta_snapshot.go'),
